@@ -152,7 +152,9 @@ static Grd other_grid(const Grd &g, size_t n, i64 mode, bool &equal_content) {
   equal_content = true;
   switch (mode) {
     case 0: return g;
-    case 1: return Grd(p);
+    case 1:  // equal points in a distinct object; a zero point gets the other sign (logically equal, not bitwise identical)
+      for (auto &x : p) if (x == 0.0) x = -0.0;
+      return Grd(p);
     case 2: p[n / 2] += 0.125; equal_content = false; return Grd(p);
     case 3:
       if (n >= 3) { p.pop_back(); equal_content = false; }
